@@ -455,6 +455,15 @@ fn main() {
     let args: Vec<String> = std::env::args().collect();
     match args.get(1).map(|s| s.as_str()) {
         Some("replay") => cmd_replay(&args[2..]),
+        Some("dates") => {
+            let a = &args[2..];
+            let g = |n: &str, d: u64| arg(a, n).and_then(|s| s.parse().ok()).unwrap_or(d);
+            let (from, to, stride) = (g("--from", 0), g("--to", 2932896), g("--stride", 1));
+            let shards = g("--shards", 16) as usize;
+            let out = arg(a, "--out").expect("--out");
+            let n = muxide_verif_harness::dates::run(from, to, stride, &out, shards);
+            println!("{}", json!({"instances": (to - from) / stride + 1, "events": n, "shards": shards}));
+        }
         Some("valtab") => {
             let a = &args[2..];
             let input = arg(a, "--in").expect("--in");
